@@ -225,8 +225,28 @@ func (c *checker) replayProgram(node string, p *sim.Program, log bool) (ro *repl
 func crashDetail(out string) string {
 	lines := strings.Split(out, "\n")
 	var keep []string
+	if i := strings.Index(out, "WARNING: DATA RACE"); i >= 0 {
+		// the two conflicting accesses with their top frames
+		for _, l := range strings.Split(out[i:], "\n") {
+			l = strings.TrimSpace(l)
+			if l == "" || strings.HasPrefix(l, "====") {
+				continue
+			}
+			if strings.HasPrefix(l, "Goroutine ") {
+				break
+			}
+			if strings.Contains(l, "/verif/harness/") || strings.Contains(l, "testing.") || strings.Contains(l, "runtime.") {
+				continue
+			}
+			keep = append(keep, l)
+			if len(keep) >= 16 {
+				break
+			}
+		}
+		return strings.Join(keep, " | ")
+	}
 	for _, l := range lines {
-		if strings.Contains(l, "fatal") || strings.Contains(l, "SIG") || strings.Contains(l, "DATA RACE") || strings.Contains(l, "panic") || strings.Contains(l, "unexpected fault") {
+		if strings.Contains(l, "fatal") || strings.Contains(l, "SIG") || strings.Contains(l, "panic") || strings.Contains(l, "unexpected fault") {
 			keep = append(keep, strings.TrimSpace(l))
 		}
 		if len(keep) >= 6 {
